@@ -176,7 +176,8 @@ GARBAGE = {
     'bad-memo': b'h\x05.',
     'short-frame': b'\x80\x04\x95\xff\x00\x00\x00\x00\x00\x00\x00.',
 }
-FAULT_KINDS = ['empty', 'zeros', 'text', 'bad-opcode', 'delete'] + sorted(GARBAGE)
+LONG_KINDS = ['long-garbage', 'long-zeros', 'long-tail']
+FAULT_KINDS = ['empty', 'zeros', 'text', 'bad-opcode', 'delete'] + sorted(GARBAGE) + LONG_KINDS
 
 
 def damage(path, kind, k=None, full=None):
@@ -194,6 +195,15 @@ def damage(path, kind, k=None, full=None):
     elif kind == 'bad-opcode':
         with open(path, 'wb') as f:
             f.write(b'\xff\xfe' + full[2:200])
+    elif kind == 'long-garbage':  # an unreadable file that is longer than the complete cache
+        with open(path, 'wb') as f:
+            f.write(b'\xff' + bytes((7 * i) % 251 for i in range(3 * len(full))))
+    elif kind == 'long-zeros':
+        with open(path, 'wb') as f:
+            f.write(b'\x00' * (2 * len(full) + 100))
+    elif kind == 'long-tail':  # a stale, longer file that begins like a cache but is cut inside and padded
+        with open(path, 'wb') as f:
+            f.write(full[: len(full) // 2] + b'\x00' * (2 * len(full)))
     elif kind in GARBAGE:
         with open(path, 'wb') as f:
             f.write(GARBAGE[kind])
@@ -426,8 +436,12 @@ def run_roundtrip(case):
     d = tmpdir()
     try:
         fn = os.path.join(d, 'x.cache')
+        if case.get('over_longer'):
+            # the cache file is re-used: it already holds a longer trajectory
+            big = np.concatenate([path] * 4, axis=0)
+            gcall(cases.trajectory(big - np.floor(big), case['symbols'], case['lattice']['matrix'], case['time_step'], case['temperature'], case['species_kind']).to_cache, fn)
         gcall(t.to_cache, fn)
-        back = gcall(Trajectory.from_cache, fn)
+        back = gcall(Trajectory.from_cache, fn, clause='save-load-identical')
         ref = cases.trajectory(path - np.floor(path), case['symbols'], case['lattice']['matrix'], case['time_step'], case['temperature'], case['species_kind'])
         pa, pb = np.asarray(back.positions), np.asarray(ref.positions)
         if pa.shape != pb.shape or np.abs(((pa - pb + 0.5) % 1.0) - 0.5).max() > (0 if case['mode'] == 'positions' else 1e-9):
@@ -448,6 +462,7 @@ def run_roundtrip(case):
 def roundtrip_cases(draw, tier):
     c = draw(gen.path_cases(max_frames=8, max_atoms=4))
     c['mode'] = draw(st.sampled_from(['positions', 'displacements']))
+    c['over_longer'] = draw(st.booleans())
     return c
 
 
